@@ -118,7 +118,7 @@ class parse_range_list:
     """pre-v5 (7.7.3 of v4 / 2.17.3): pairs of address-sized words up to (0, 0); a first word of all ones is a
     base address selection.  v5: the decoded entries (layout K2) translated kind by kind."""
     params = dict(self=RLT, cu=CUArg)
-    requires = ["self._max_addr == 2**(8 * self.structs.address_size) - 1"]
+    requires = ["self._max_addr == (2**32 - 1 if self.structs.address_size == 4 else 2**64 - 1)"]
     ghost = {"$B": "self.stream.B", "$p": "self.stream.pos", "$W": "self.structs.address_size"}
     returns = ListOf(RElemT)
     loops = {0: dict(
@@ -131,4 +131,51 @@ class parse_range_list:
               ["self.version < 5 or len(result) == len(rnglist_at($B, $p))"] + \
               ["self.version < 5 or forall(lambda j: %s, 0, len(result))" % c
                for c in kind_clauses(R, 'result[j]', 'rnglist_at($B, $p)[j]')]
+    may_raise = ["ELFParseError", "DWARFError", "OverflowError"]
+
+
+LLT = Obj('LocationLists', stream=Stream, structs=StructsT, _max_addr=Nat, version=Choice(4, 5), dwarfinfo=Any)
+LElemT = Tagged(LBaseT, LocEntryT)
+OFFJ = "loc_off($B, $p, $W, j)"
+V4L_INV = ["forall(lambda j: word_at_addr($B, OFFJ, $W) != 0 or word_at_addr($B, OFFJ + $W, $W) != 0, 0, %s)",
+           "forall(lambda j: lst[j].entry_offset == OFFJ, 0, %s)",
+           "forall(lambda j: lst[j].entry_length == loc_off($B, $p, $W, j + 1) - OFFJ, 0, %s)",
+           "forall(lambda j: is_kind(lst[j], 'BaseAddressEntry') == (word_at_addr($B, OFFJ, $W) == self._max_addr), 0, %s)",
+           "forall(lambda j: is_kind(lst[j], 'LocationEntry') == (word_at_addr($B, OFFJ, $W) != self._max_addr), 0, %s)",
+           "forall(lambda j: not is_kind(lst[j], 'BaseAddressEntry') or lst[j].base_address == word_at_addr($B, OFFJ + $W, $W), 0, %s)",
+           "forall(lambda j: not is_kind(lst[j], 'LocationEntry') or (lst[j].begin_offset == word_at_addr($B, OFFJ, $W)"
+           " and lst[j].end_offset == word_at_addr($B, OFFJ + $W, $W) and lst[j].is_absolute == False"
+           " and len(lst[j].loc_expr) == u16_at($B, OFFJ + 2 * $W)), 0, %s)",
+           "forall(lambda j, i: not is_kind(lst[j], 'LocationEntry') or i >= u16_at($B, OFFJ + 2 * $W)"
+           " or lst[j].loc_expr[i] == $B[OFFJ + 2 * $W + 2 + i], 0, %s, 0, 65536)"]
+V4L_INV = [x.replace('OFFJ', OFFJ) for x in V4L_INV]
+
+
+@contract(L, "LocationLists._parse_location_list_from_stream", props=["C07"])
+class parse_location_list_v4:
+    """pre-v5 (2.6.2 / 7.7.3 of v4): entries up to the (0, 0) pair; a first word of all ones selects a base
+    address (2W bytes); a location entry is two words, a 2-byte expression length and the expression"""
+    params = dict(self=LLT)
+    requires = ["self._max_addr == (2**32 - 1 if self.structs.address_size == 4 else 2**64 - 1)"]
+    ghost = {"$B": "self.stream.B", "$p": "self.stream.pos", "$W": "self.structs.address_size"}
+    returns = ListOf(LElemT)
+    loops = {0: dict(
+        invariant=["self.stream.pos == loc_off($B, $p, $W, $k)", "len(lst) == $k"] + [x % '$k' for x in V4L_INV],
+        shapes={"lst": ListOf(LElemT)},
+        variant="len($B) + 1 - self.stream.pos")}
+    ensures = ["word_at_addr($B, loc_off($B, $p, $W, len(result)), $W) == 0 and word_at_addr($B, loc_off($B, $p, $W, len(result)) + $W, $W) == 0",
+               "self.stream.pos == loc_off($B, $p, $W, len(result)) + 2 * $W"] + \
+              [(x % 'len(result)').replace('lst[', 'result[') for x in V4L_INV]
+    may_raise = ["ELFParseError", "OverflowError"]
+
+
+@contract(L, "LocationLists._parse_location_list_from_stream_v5", props=["C07"])
+class parse_location_list_v5:
+    """v5: the decoded entries (layout K2) translated kind by kind with the unit's address table"""
+    params = dict(self=LLT, cu=CUArg)
+    ghost = {"$B": "self.stream.B", "$p": "self.stream.pos"}
+    returns = ListOf(LElemT)
+    maps = {0: dict(elem=LElemT, ensures=kind_clauses(L, 'value', 'entry'))}
+    ensures = ["len(result) == len(loclist_at($B, $p))"] + \
+              ["forall(lambda j: %s, 0, len(result))" % c for c in kind_clauses(L, 'result[j]', 'loclist_at($B, $p)[j]')]
     may_raise = ["ELFParseError", "DWARFError", "OverflowError"]
